@@ -179,13 +179,16 @@ def prepare_config(cfg: dict, ctx: RunContext) -> dict:
     return cfg
 
 
-def _build_plan(ctx: RunContext, context: OptimizerContext, spec: dict, level: int) -> dict:
+def _build_plan(ctx: RunContext, context: OptimizerContext, spec: dict, level: int, reuse: dict | None = None,
+                suffix: str = "") -> dict:
+    """``reuse``: an outer plan built earlier whose nested plans (the user's own objects) this new outer plan is handed
+    too; ``suffix`` distinguishes the handlers of the new plan from those of the earlier one."""
     plan = Plan(context)
     ctx.plans.append(plan)
     built: dict[str, Any] = {"plan": plan, "steps": [], "trackers": [], "spec": spec, "level": level}
     for tag in spec.get("recorders", ["a"]):
-        plan.add_handler("sim/recorder", ctx=ctx, tag=f"h{level}{tag}", level=level)
-    for sspec in spec["steps"]:
+        plan.add_handler("sim/recorder", ctx=ctx, tag=f"h{level}{tag}{suffix}", level=level)
+    for pos, sspec in enumerate(spec["steps"]):
         if sspec.get("same_as") is not None:
             # the step object of an earlier entry is run once more (a restart loop in the user's code)
             first = built["steps"][sspec["same_as"]]
@@ -203,7 +206,9 @@ def _build_plan(ctx: RunContext, context: OptimizerContext, spec: dict, level: i
         ctx.step_index[sid] = len(ctx.step_meta)
         ctx.step_meta.append({"kind": sspec["kind"], "level": owner_level, "cfg": sspec["cfg"]})
         nested = None
-        if sspec.get("nested"):
+        if sspec.get("nested") and reuse is not None:
+            nested = reuse["steps"][pos]["nested"]
+        elif sspec.get("nested"):
             nested = _build_plan(ctx, context, sspec["nested"], level + 1)
         built["steps"].append({"id": sid, "spec": sspec, "nested": nested, "plan": owner,
                                "index": ctx.step_index[sid]})
@@ -443,6 +448,15 @@ def run_scenario(scn: dict, setup=None, shared: dict | None = None) -> RunContex
             built = _build_plan(ctx, context, scn["plan"], 0)
             ctx.built = built
             _run_built(ctx, built, scn["configs"])
+            if scn.get("second_outer_plan"):
+                # a second top-level plan of the same shape that is handed the nested plan objects of the first
+                ctx.second_outer_first_event = len(ctx.events)
+                ctx.event_faults = list(scn.get("second_event_faults", []))
+                if scn.get("second_faults") is not None:
+                    evaluator.faults = list(scn["second_faults"])
+                built2 = _build_plan(ctx, context, scn["plan"], 0, reuse=built, suffix="B")
+                ctx.built2 = built2
+                _run_built(ctx, built2, scn["configs"])
         evaluator.check_alias("end of run")
     finally:
         if getattr(ctx, "fake", None) is not None:
